@@ -130,14 +130,15 @@ class Chaperone:
         (r'\[[^\[\]]*\]', "bare_json_array"),
     ]
 
-    # Common JSON repairs
+    # Common JSON repairs (applied outside of double-quoted string literals, see _apply_repair)
     JSON_REPAIRS = [
+        # Fix single quotes to double quotes (first, so that the strings they delimit are
+        # recognised as string literals by the repairs that follow)
+        (r"'([^']*)'(?=\s*:)", r'"\1"', "fixed_single_quote_key"),
+        (r":\s*'([^']*)'", r': "\1"', "fixed_single_quote_value"),
         # Fix trailing commas
         (r',\s*}', '}', "removed_trailing_comma_object"),
         (r',\s*]', ']', "removed_trailing_comma_array"),
-        # Fix single quotes to double quotes
-        (r"'([^']*)'(?=\s*:)", r'"\1"', "fixed_single_quote_key"),
-        (r":\s*'([^']*)'", r': "\1"', "fixed_single_quote_value"),
         # Fix unquoted keys
         (r'(\{|,)\s*([a-zA-Z_][a-zA-Z0-9_]*)\s*:', r'\1"\2":', "quoted_unquoted_key"),
         # Fix Python literals
@@ -148,6 +149,21 @@ class Chaperone:
         (r':\s*undefined\b', ': null', "converted_undefined"),
         (r':\s*NaN\b', ': null', "converted_nan"),
     ]
+
+    # A complete double-quoted JSON string literal
+    _STRING_LITERAL = re.compile(r'"(?:[^"\\]|\\.)*"')
+
+    @classmethod
+    def _apply_repair(cls, pattern: str, replacement: str, text: str) -> str:
+        """Apply one repair to the text between string literals, leaving string contents untouched."""
+        pieces = []
+        last = 0
+        for literal in cls._STRING_LITERAL.finditer(text):
+            pieces.append(re.sub(pattern, replacement, text[last:literal.start()]))
+            pieces.append(literal.group(0))
+            last = literal.end()
+        pieces.append(re.sub(pattern, replacement, text[last:]))
+        return "".join(pieces)
 
     def __init__(
         self,
@@ -479,7 +495,7 @@ class Chaperone:
         repaired = raw.strip()
 
         for pattern, replacement, _ in self.JSON_REPAIRS:
-            repaired = re.sub(pattern, replacement, repaired)
+            repaired = self._apply_repair(pattern, replacement, repaired)
 
         try:
             data = json.loads(repaired)
@@ -498,7 +514,7 @@ class Chaperone:
         repairs_applied = []
 
         for pattern, replacement, repair_name in self.JSON_REPAIRS:
-            new_repaired = re.sub(pattern, replacement, repaired)
+            new_repaired = self._apply_repair(pattern, replacement, repaired)
             if new_repaired != repaired:
                 repairs_applied.append(repair_name)
                 repaired = new_repaired
